@@ -13,12 +13,12 @@ use std::sync::atomic::{AtomicBool, Ordering};
 use std::sync::Arc;
 use std::task::{Context, Poll};
 
-struct ReaderOut { replica: Vec<V>, err: Option<String>, resets: usize, items: usize, ended: bool }
+struct ReaderOut { replica: Vec<V>, err: Option<String>, resets: usize, items: usize, ended: bool, panicked: bool }
 
 fn read_loop<I, S: Stream<Item = I> + Unpin>(mut st: S, snapshot: Vec<V>, done: Arc<AtomicBool>, diffs_of: impl Fn(I) -> Vec<VectorDiff<V>>) -> ReaderOut {
     let (_f, w) = crate::eng_vec::flag_waker();
     let mut cx = Context::from_waker(&w);
-    let mut o = ReaderOut { replica: snapshot, err: None, resets: 0, items: 0, ended: false };
+    let mut o = ReaderOut { replica: snapshot, err: None, resets: 0, items: 0, ended: false, panicked: false };
     let mut after_done = false;
     loop {
         match Pin::new(&mut st).poll_next(&mut cx) {
@@ -52,6 +52,11 @@ fn one_round(sink: &mut Sink, id: &str, r: &mut Rng, n_ops: usize) {
     let done = Arc::new(AtomicBool::new(false));
     let (d1, d2, d3) = (done.clone(), done.clone(), done.clone());
     let (s1, s2) = (snap.clone(), snap.clone());
+    // a batched adapter chain on a third subscriber (C09 / C13 with the writer on another thread): skip(1) of the batches
+    let (a_init, a_stream) = { use eyeball_im_util::vector::{VectorObserverExt, VectorSubscriberExt}; ov.subscribe().batched().skip(1) };
+    let a_snap: Vec<V> = a_init.iter().copied().collect();
+    let d4 = done.clone();
+    let t_adp = std::thread::spawn(move || read_loop(Box::pin(a_stream), a_snap, d4, |ds: Vec<VectorDiff<V>>| ds));
     let t_plain = std::thread::spawn(move || read_loop(plain, s1, d1, |d: VectorDiff<V>| vec![d]));
     let t_batched = std::thread::spawn(move || read_loop(batched, s2, d2, |ds: Vec<VectorDiff<V>>| ds));
     let mut wr = r.fork();
@@ -77,9 +82,27 @@ fn one_round(sink: &mut Sink, id: &str, r: &mut Rng, n_ops: usize) {
         if drop_at_end { drop(ov); d3.store(true, Ordering::SeqCst); None::<ObservableVector<V>>.map(|_| ()); (fin, None) } else { d3.store(true, Ordering::SeqCst); (fin, Some(ov)) }
     });
     let (fin, keep) = t_writer.join().unwrap();
-    let po = t_plain.join().unwrap();
-    let bo = t_batched.join().unwrap();
+    let mut joined = |name: &str, tag: &str, j: std::thread::JoinHandle<ReaderOut>, sink: &mut Sink| match j.join() {
+        Ok(o) => o,
+        Err(_) => { sink.oracle_fail(tag, &format!("{name}, writer on another thread (capacity {cap}, {n_ops} updates): the poll panicked"));
+                    ReaderOut { replica: fin.clone(), err: None, resets: 0, items: 0, ended: drop_at_end, panicked: true } }
+    };
+    let po = joined("plain subscriber", "C05,C06", t_plain, sink);
+    let bo = joined("batched subscriber", "C05,C06", t_batched, sink);
+    let ao = joined("batched skip(1) of a subscriber", "C13,C09", t_adp, sink);
     drop(keep);
+    {
+        let want: Vec<V> = fin.iter().skip(1).copied().collect();
+        if ao.panicked {
+        } else if let Some(e) = &ao.err {
+            sink.oracle_fail("C13,C09", &format!("batched skip(1) of a subscriber, writer on another thread (capacity {cap}, {n_ops} updates): emitted diff not applicable to the view — {e}"));
+        } else if ao.replica != want {
+            sink.oracle_fail("C13,C09", &format!("batched skip(1) of a subscriber, writer on another thread (capacity {cap}, {n_ops} updates, {} resets): after the writer finished the view has {} items, skip(1) of the vector {}; first difference at {:?}",
+                ao.resets, ao.replica.len(), want.len(), ao.replica.iter().zip(want.iter()).position(|(a, b)| a != b)));
+        }
+        if ao.ended != drop_at_end { sink.oracle_fail("C13,C09,C08", &format!("batched skip(1), writer on another thread: stream {} although the vector was {}", if ao.ended { "ended" } else { "did not end" }, if drop_at_end { "dropped" } else { "kept" })); }
+        sink.stat_n("vconc.adapter.items", ao.items as u64);
+    }
     for (name, o) in [("plain", &po), ("batched", &bo)] {
         if let Some(e) = &o.err {
             sink.oracle_fail("C05,C06", &format!("{name} subscriber, writer on another thread (capacity {cap}, {n_ops} updates): delivered diff not applicable — {e}"));
